@@ -118,7 +118,9 @@ type subscriber struct {
 	cancelPhase     string
 	cancelClock     int64
 	ctxLiveAtReturn bool
-	faulted         bool // the server dropped / silenced the connection carrying it
+	leaves          bool   // its own context carries a deadline that ends during the run (it leaves without cancel())
+	leavePhase      string // phase label of that departure
+	faulted         bool   // the server dropped / silenced the connection carrying it
 	sendFailed      int  // manual mode: the upstream could not send because the subscription's connection was gone
 	hookHits        int
 }
@@ -141,6 +143,9 @@ type env struct {
 	idle         time.Duration
 	pingInterval time.Duration
 	pingTimeout  time.Duration
+
+	outlived        []deviation // set by awaitConnsGone when it convicts
+	idleTicksWaited int64
 }
 
 type envCfg struct {
@@ -373,15 +378,74 @@ func (s *subscriber) start() {
 
 func (s *subscriber) markCancelled(phase string) {
 	s.mu.Lock()
-	if !s.cancelled {
+	first := !s.cancelled
+	if first {
 		s.cancelled = true
 		s.cancelPhase = phase
 		s.cancelClock = s.e.clock.Add(1)
 	}
 	s.mu.Unlock()
+	if !first {
+		return
+	}
 	s.e.mu.Lock()
 	s.e.cancels[phase]++
 	s.e.mu.Unlock()
+}
+
+// leaveByDeadline gives the subscriber a context that ends by DEADLINE (context.WithTimeout) instead
+// of by cancel(): ctx.Err() is context.DeadlineExceeded, errors produced on its behalf are timeouts.
+// Must be called before start(). From now on the subscriber counts as one that goes away: like a
+// cancelled one it is only required to have received a prefix. The caller watches ctx.Done() and
+// then calls cancel(phase) (which, as graphql_subscription_client.go does through context.AfterFunc,
+// calls the unsubscribe function if Subscribe had handed one out).
+func (s *subscriber) leaveByDeadline(d time.Duration, phase string) {
+	s.cancelCtx()
+	s.ctx, s.cancelCtx = context.WithTimeout(context.Background(), d)
+	s.mu.Lock()
+	s.leaves = true
+	s.leavePhase = phase
+	s.mu.Unlock()
+}
+
+// ticks is a chain of consecutive runtime timers of one length: every time.AfterFunc(unit) arms the
+// next one when it fires. It measures "n idle periods have passed" with the very facility the
+// client's idle close uses (time.AfterFunc in the same process), so a starved process delays both
+// alike; no wall-clock value is ever compared.
+type ticks struct {
+	unit    time.Duration
+	n       atomic.Int64
+	stopped atomic.Bool
+	note    *notifier
+}
+
+func startTicks(unit time.Duration, note *notifier) *ticks {
+	if unit <= 0 {
+		unit = time.Millisecond
+	}
+	t := &ticks{unit: unit, note: note}
+	t.arm()
+	return t
+}
+
+func (t *ticks) arm() {
+	time.AfterFunc(t.unit, func() {
+		if t.stopped.Load() {
+			return
+		}
+		t.n.Add(1)
+		t.note.bump()
+		t.arm()
+	})
+}
+
+func (t *ticks) stop() { t.stopped.Store(true) }
+
+// elapse lets n consecutive timers of the given length pass (bounded by the step watchdog).
+func (e *env) elapse(unit time.Duration, n int, what string) bool {
+	t := startTicks(unit, e.note)
+	defer t.stop()
+	return e.wait(what, func() bool { return t.n.Load() >= int64(n) })
 }
 
 // cancel is the subscriber going away: its context ends and, if Subscribe had already handed out
